@@ -67,4 +67,26 @@ inductive SketchDedup where
   | hashes
   deriving DecidableEq, Repr
 
+/-- The fixed-length units of `numpy.datetime64` (`Y` and `M` are calendar-dependent and are not modelled). -/
+inductive TUnit where
+  | W | D | h | m | s | ms | us | ns
+  deriving DecidableEq, Repr
+
+/-- Nanoseconds per tick. -/
+def TUnit.nanos : TUnit → Int
+  | .W => 604800000000000
+  | .D => 86400000000000
+  | .h => 3600000000000
+  | .m => 60000000000
+  | .s => 1000000000
+  | .ms => 1000000
+  | .us => 1000
+  | .ns => 1
+
+/-- The dtypes `DateProfiler` converts through: `numpy.array(..., dtype=…)` and `.astype(…)` arguments. -/
+inductive DType where
+  | dt (u : TUnit)
+  | i64
+  deriving DecidableEq, Repr
+
 end Profile
